@@ -591,8 +591,8 @@ def elem_of(eng, call, it):
     """abstract element yielded by iterator value `it`"""
     op = it.op
     if op == "iter":
-        src, byref = it.args
-        e = mk("elem", src)
+        src, byref = it.args[0], it.args[1]
+        e = mk("elem", src, *it.args[2:])
         if src.op == "agg" and src.args[0] == "array" and 2 <= len(src.args) <= 9:
             # array literal: keep the elements apart (each is absorbed / used on its own)
             e = src.args[1] if len(src.args) == 2 else mk("oneof", *src.args[1:])
@@ -630,12 +630,13 @@ def range_facts(e):
 
 @model("std::slice::<impl [T]>::iter", "std::slice::<impl [T]>::iter_mut", "std::vec::Vec::<T, A>::iter")
 def m_iter(eng, call, args):
-    return mk("iter", val(eng, call, args[0]), True)
+    # the site distinguishes the elements of different (e.g. nested) iterations over one collection
+    return mk("iter", val(eng, call, args[0]), True, call["site"])
 
 
 @model("std::collections::HashMap::<K, V, S, A>::values")
 def m_values(eng, call, args):
-    return mk("iter", mk("map_values", val(eng, call, args[0])), True)
+    return mk("iter", mk("map_values", val(eng, call, args[0])), True, call["site"])
 
 
 @model("std::iter::IntoIterator::into_iter", "rayon::iter::IntoParallelIterator::into_par_iter")
@@ -646,11 +647,11 @@ def m_into_iter(eng, call, args):
     if a.op == "agg" and a.args[0].endswith("ops::Range"):
         return mk("range_iter", a.args[1], a.args[2], call["site"])
     if a.op in ("ref", "refv", "refo"):
-        return mk("iter", val(eng, call, a), True)
+        return mk("iter", val(eng, call, a), True, call["site"])
     subs = call.get("substs") or []
     if subs and eng.find_impl_fn("next", subs[0][0], subs[0][1], trait_contains="Iterator") is not None:
         return a   # a workspace iterator type (Evaluator)
-    return mk("iter", a, False)
+    return mk("iter", a, False, call["site"])
 
 
 @model("std::iter::Iterator::cloned", "std::iter::Iterator::copied")
@@ -1132,7 +1133,7 @@ def m_fmt_format(eng, call, args):
 
 @model("std::str::<impl str>::split")
 def m_split(eng, call, args):
-    return mk("iter", mk("split", val(eng, call, args[0]), args[1]), False)
+    return mk("iter", mk("split", val(eng, call, args[0]), args[1]), False, call["site"])
 
 
 # ---------------------------------------------------------------------------------------------------------
